@@ -15,6 +15,7 @@ from . import flow
 from .common import table, CallGraph
 
 CRATES = {"gluon_vm", "gluon", "gluon_base"}
+THOROUGH_CONFIGS = []  # the rule is about the serialization configuration only
 ROOT = "gluon::compiler_pipeline::Module"
 BAD_ATTR = re.compile(r"\b(skip_serializing_if|skip_serializing|skip_deserializing|skip|default)\b")
 
